@@ -1298,11 +1298,23 @@ def typecheck_before_subfields(check: Check, repo: Repo, rule: str = "TYPECHECK-
             continue
         cfg = CFG(scope)
 
+        # names that hold (a function of) the type check's result: `ok = await ...(is_type_of)`
+        carriers = {"is_type_of"}
+        grew = True
+        while grew:
+            grew = False
+            for s_ in walk_body(scope):
+                if isinstance(s_, ast.Assign) and len(s_.targets) == 1 and isinstance(s_.targets[0], ast.Name) and s_.targets[0].id not in carriers:
+                    if {x.id for x in ast.walk(s_.value) if isinstance(x, ast.Name)} & carriers and not (
+                            isinstance(s_.value, ast.Call) and last_attr(s_.value) == "collect_and_execute_subfields"):
+                        carriers.add(s_.targets[0].id)
+                        grew = True
+
         def is_type_test(nd) -> bool:
             if nd.kind != "test" or nd.ast is None:
                 return False
             names = {x.id for x in ast.walk(nd.ast) if isinstance(x, ast.Name)}
-            if "is_type_of" not in names:
+            if not (names & carriers):
                 return False
             e = nd.ast
             if isinstance(e, ast.Call) and last_attr(e) in ("is_awaitable", "default_is_awaitable"):
